@@ -317,7 +317,7 @@ pub fn arg_pool() -> Vec<&'static str> {
         "?q", "#f", "a=b&c=d", "\u{0}", "\u{7f}", "\u{80}", "a/../b", "a/./b", "/.//x", "a b ", "%00", "&", "=", "+", ";", "~",
         // a '/' behind tab / LF (class of the repaired finding F-C06-6)
         "\t/x", "\n//x", "\t/ y",
-        // a dot segment behind tab / LF / CR (class of the open finding F-C06-7: extend() skips only the literal "." / "..")
+        // a dot segment behind tab / LF / CR (class of the repaired finding F-C06-7: extend() skipped only the literal "." / "..")
         ".\t.", "\n.", ".\r",
     ]
 }
